@@ -18,7 +18,7 @@ package service
 //@ property C06 roots github.com/mdzio/go-mqtt/topics.nextTopicLevel, (*github.com/mdzio/go-mqtt/topics.Manager).Subscribe, (*github.com/mdzio/go-mqtt/topics.Manager).Unsubscribe, (*github.com/mdzio/go-mqtt/topics.Manager).Subscribers
 //@ property C07 roots (*service).processUnsubscribe, (*service).processSubscribe, (*github.com/mdzio/go-mqtt/message.SubackMessage).AddReturnCodes, (*github.com/mdzio/go-mqtt/message.SubackMessage).AddReturnCode, (*github.com/mdzio/go-mqtt/message.SubscribeMessage).Decode, (*github.com/mdzio/go-mqtt/message.UnsubscribeMessage).Decode, (*github.com/mdzio/go-mqtt/message.SubackMessage).Encode, (*github.com/mdzio/go-mqtt/topics.Manager).Subscribe, (*github.com/mdzio/go-mqtt/topics.Manager).Unsubscribe
 //@ property C11 roots (*Server).handleConnection, (*Server).getSession, (*github.com/mdzio/go-mqtt/message.ConnectMessage).Decode, (*github.com/mdzio/go-mqtt/message.ConnectMessage).decodeMessage, (*github.com/mdzio/go-mqtt/message.ConnectMessage).validClientID, (*github.com/mdzio/go-mqtt/message.ConnackMessage).Encode
-//@ property C05 roots getMessageBuffer, getConnectMessage, (*service).peekMessageSize, (*service).peekMessage, (*github.com/mdzio/go-mqtt/message.ConnectMessage).Decode
+//@ property C05 roots (*buffer).Close, (*buffer).Read, (*buffer).ReadPeek, (*buffer).ReadWait, (*buffer).ReadCommit, (*buffer).Write, (*buffer).WriteWait, (*buffer).WriteCommit, (*buffer).waitForWriteSpace, (*buffer).ReadFrom, (*buffer).WriteTo, (*service).onPublish, getMessageBuffer, getConnectMessage, (*service).peekMessageSize, (*service).peekMessage, (*github.com/mdzio/go-mqtt/message.ConnectMessage).Decode
 //@ property C19 roots (*service).processIncoming, (*service).receiver, (timeoutReader).Read
 //@ property C01 roots (*service).onPublish, (*Server).Publish, (*service).processUnsubscribe
 //@ property C17 roots (*service).writeMessage, (*stat).increment, (*buffer).WriteTo, (*buffer).ReadPeek, (*buffer).ReadCommit, (*buffer).ReadFrom
@@ -466,6 +466,7 @@ func vspecCovered(x int64, start int64, c int64, size int64) bool {
 //@   ensures[inv] vdefProc(p)
 //@   ensures[ghostdef-dlv] gfield(p, "ndlv") == old(gfield(p, "ndlv"))+1 && gfield(p, "lastdlv") == msg
 //@   ensures[C01:fanout] err == nil ==> gfield(0, "ncb") == old(gfield(0, "ncb"))+len(p.subs)
+//@   ensures[C01,C05:no-abort] err != nil ==> gfield(0, "ncb") == old(gfield(0, "ncb"))
 //@   modifies modset(Callback), msg.remlen, msg.dirty, msg.packetID, p.subs, p.qoss, capelems(p.subs), modset(TopicStore), gfield(p, "ndlv"), gfield(p, "lastdlv")
 
 
@@ -841,4 +842,5 @@ func vspecCovered(x int64, start int64, c int64, size int64) bool {
 //@   atcall functype github.com/mdzio/go-mqtt/service.OnPublishFunc requires[C01:qos] qoss[rangeindex+1] <= 2 ==> message.vspecQoSOf(msg.mtypeflags[0]) == qoss[rangeindex+1]
 //@   loop 1 invariant len(msg.mtypeflags) == 1 && gfield(0, "ncb") == old(gfield(0, "ncb"))+rangeindex+1 && rangeindex < len(rangeslice) && heldsame() && len(qoss) == len(rangeslice) && sameslice(rangeslice, subs)
 //@   ensures[C01:fanout] err == nil ==> gfield(0, "ncb") >= old(gfield(0, "ncb"))
+//@   ensures[C01,C05:no-abort] err != nil ==> gfield(0, "ncb") == old(gfield(0, "ncb"))
 //@   modifies modset(Callback), msg.remlen, msg.dirty, msg.packetID, modset(TopicStore), fields(svr), allelems(interface{})
